@@ -9,6 +9,7 @@ import (
 	"math"
 	"strings"
 	"time"
+	"verifharness/internal/atinit"
 
 	"verifharness/internal/core"
 )
@@ -256,6 +257,52 @@ func runC01(r *core.Run) {
 	// fresh process whose very first decode goes through one chosen entry point (then the others,
 	// in rotation): a lazily built table that one entry point reads without building shows only
 	// when that entry point is the first to be used
+	if atinit.Records != nil {
+		// this child decoded during package initialisation, before anything else ran
+		n := 0
+		for _, rec := range atinit.Records {
+			s := spaceByName(rec.Space)
+			if rec.Call != "From8Bit" || s == nil {
+				continue
+			}
+			n++
+			want := s.Ref.Curve.EOTF(float64(rec.In[0]) / 255)
+			if d := math.Abs(float64(rec.Out[0]) - want); !(d <= c01Tol) {
+				r.Violate("point", rec.Space+"/From8Bit/accuracy/at-init", fmt.Sprintf("%s From8Bit(%v) = %.9g when called from package initialisation of the importing program, published EOTF gives %.9g", rec.Space, rec.In[0], rec.Out[0], want), c01Case{rec.Space, "From8Bit", 0, int(rec.In[0]), 0})
+			}
+		}
+		r.AddEvals(int64(n))
+		if n == 0 {
+			r.Inconclusive("atinit child recorded nothing")
+		}
+	}
+	if strings.HasPrefix(r.Variant, "walk:") {
+		var stride int
+		fmt.Sscanf(r.Variant[len("walk:"):], "%d", &stride)
+		if stride < 1 {
+			stride = 1
+		}
+		var n int64
+		for _, s := range libSpaces {
+			for _, e := range []string{"From16Bit", "ColorFromEncodedColor/color.RGBA64", "LineariseColor/color.NRGBA64", "From8Bit", "ColorFromNRGBA"} {
+				max := 255
+				if c01Width(e) == 16 {
+					max = 65535
+				}
+				for code := 0; code <= max; code += stride {
+					cs := c01Case{s.Name, e, 0, code, 0}
+					bad, kind, msg, _ := c01Point(cs)
+					n++
+					if bad {
+						r.Violate("point", fmt.Sprintf("%s/%s/%s/stride-walk", s.Name, e, kind), fmt.Sprintf("%s (fresh process; the first decodes walked the codes 0, %d, %d, ... in this order)", msg, stride, 2*stride), cs)
+						break
+					}
+				}
+			}
+		}
+		r.AddEvals(n)
+		return
+	}
 	if strings.HasPrefix(r.Variant, "firstentry:") {
 		var k int
 		fmt.Sscanf(r.Variant[len("firstentry:"):], "%d", &k)
@@ -444,10 +491,18 @@ func runC01(r *core.Run) {
 		r.Obs("carrier_type_cases", n)
 	}
 	if r.Variant == "" {
-		for _, v := range []string{"encfirst@3", "encfirst+rev@1", "warm@2"} {
+		for _, v := range []string{"encfirst@3", "encfirst+rev@1", "warm@2", "decfirst+encfirst@2", "decfirst+encfirst+rev@6", "atinit@1", "atinit@16"} {
 			r.RunVariantChild(v, 10*time.Minute, false)
 		}
-		r.Obs("fresh_process_variants", []string{"encfirst@3", "encfirst+rev@1", "warm@2"})
+		r.Obs("fresh_process_variants", []string{"encfirst@3", "encfirst+rev@1", "warm@2", "decfirst+encfirst@2", "decfirst+encfirst+rev@6", "atinit@1", "atinit@16"})
+		// fresh processes whose first decodes walk the code range at a fixed stride from 0 (a table
+		// built page by page, or extended to a high-water mark, is right or wrong depending on which
+		// code the n-th call asks for)
+		walks := []int{1, 255, 256, 257, 511, 512, 513, 1024, 4096, 4369}
+		core.ParallelFor(len(walks), 5, func(i int) {
+			r.RunVariantChild(fmt.Sprintf("walk:%d@%d", walks[i], 1+i%4), 5*time.Minute, false)
+		})
+		r.Obs("fresh_process_stride_walks", walks)
 		nfe := len(c01Entries8) + len(c01Entries16)
 		core.ParallelFor(2*nfe, 8, func(i int) {
 			v := fmt.Sprintf("firstentry:%d@%d", i%nfe, 1+i%3)
